@@ -31,6 +31,14 @@ from .blueprints import TableGroupBlueprint
 
 pp.ParserElement.set_default_whitespace_chars(" \t\r")
 
+# pyparsing finishes setting up ("streamlines") grammar elements lazily, during the first parse that reaches
+# them, and that set-up is not thread safe: threads making their first parse at the same time could use
+# half-finished shared elements. Do it once, at import time.
+for _element in (
+    table, table_with_properties, ref, enum, table_group, project, sticky_note, comment
+):
+    _element.streamline()
+
 
 class PyDBML:
     """
